@@ -55,10 +55,111 @@ Definition s_bits (a : args) : list (list Z) :=
 Definition s_count (a : args) : list (list Z) :=
   [ [Z.of_nat (count_true (bits_range (bytes_of (arg 0 a)) (argn 1 a) (argn 2 a)))] ].
 
-Definition ops_C19 : list (string * opfun) :=
+Definition ops_C19a : list (string * opfun) :=
   [ ("c19.bitchunks", d_bitchunks); ("c19.bitchunks.spec", s_bitchunks);
     ("c19.unaligned", d_unaligned);
     ("c19.index_iter", d_index_iter); ("c19.index_iter.spec", s_index_iter);
     ("c19.slice_iter", d_slice_iter); ("c19.slice_iter.spec", s_slice_iter);
     ("c19.set_bits", d_set_bits); ("c19.set_bits.spec", s_set_bits);
     ("c19.bits.spec", s_bits); ("c19.count.spec", s_count) ].
+
+(* ------------------------------------------------------------------ whole-API specs *)
+From AV Require Import Model.C19_Spec.
+
+(* unop: [bytes][off][len][api path (ignored)][fn code] -> [bits] *)
+Definition s_unop (a : args) : list (list Z) :=
+  [ zs_of_bools (map (bfun1 (argn 4 a)) (bits_range (bytes_of (arg 0 a)) (argn 1 a) (argn 2 a))) ].
+(* binop: [lbytes][loff][rbytes][roff][len][api][fn] -> [bits] *)
+Definition s_binop (a : args) : list (list Z) :=
+  let len := argn 4 a in
+  [ zs_of_bools (map2 (bfun2 (argn 6 a)) (bits_range (bytes_of (arg 0 a)) (argn 1 a) len)
+                                         (bits_range (bytes_of (arg 2 a)) (argn 3 a) len)) ].
+(* quaternary: [a][ao][b][bo][c][co][d][do][len][fn] -> bits *)
+Definition s_quat (a : args) : list (list Z) :=
+  let len := argn 8 a in
+  let r i o := bits_range (bytes_of (arg i a)) (argn o a) len in
+  [ zs_of_bools (map4 (bfun4 (argn 9 a)) (r 0 1)%nat (r 2 3)%nat (r 4 5)%nat (r 6 7)%nat) ].
+(* in-place unary: [buf][off][len][fn] -> [buf'] *)
+Definition s_unop_inplace (a : args) : list (list Z) :=
+  let buf := bytes_of (arg 0 a) in
+  [ zs_of_bytes (inplace buf (argn 1 a) (map (bfun1 (argn 3 a)) (bits_range buf (argn 1 a) (argn 2 a)))) ].
+(* in-place binary: [left][loff][right][roff][len][fn] -> [left'] *)
+Definition s_binop_inplace (a : args) : list (list Z) :=
+  let l := bytes_of (arg 0 a) in let len := argn 4 a in
+  [ zs_of_bytes (inplace l (argn 1 a)
+      (map2 (bfun2 (argn 5 a)) (bits_range l (argn 1 a) len) (bits_range (bytes_of (arg 2 a)) (argn 3 a) len))) ].
+(* count / has_true / has_false: [bytes][off][len][api] *)
+Definition s_has (a : args) : list (list Z) :=
+  let bits := bits_range (bytes_of (arg 0 a)) (argn 1 a) (argn 2 a) in
+  [ [zb (existsb (fun b => b) bits); zb (existsb negb bits)] ].
+(* find_nth: [bytes][off][len][start][n] *)
+Definition s_find_nth (a : args) : list (list Z) :=
+  [ [Z.of_nat (find_nth (bits_range (bytes_of (arg 0 a)) (argn 1 a) (argn 2 a)) (argn 3 a) (argn 4 a))] ].
+(* iter: [bytes][off][len][mode] -> sequence as produced: mode 0 forward, 1 reversed *)
+Definition s_iter (a : args) : list (list Z) :=
+  let bits := bits_range (bytes_of (arg 0 a)) (argn 1 a) (argn 2 a) in
+  [ zs_of_bools (if (argn 3 a =? 0)%nat then bits else rev bits) ].
+(* equality: [a][ao][b][bo][lena][lenb] *)
+Definition s_eq (a : args) : list (list Z) :=
+  let x := bits_range (bytes_of (arg 0 a)) (argn 1 a) (argn 4 a) in
+  let y := bits_range (bytes_of (arg 2 a)) (argn 3 a) (argn 5 a) in
+  [ [zb (if list_eq_dec Bool.bool_dec x y then true else false)] ].
+
+Definition optbits (present : bool) (bs : list N) (off len : nat) : option (list bool) :=
+  if present then Some (bits_range bs off len) else None.
+Definition out_optbits (o : option (list bool)) : list (list Z) :=
+  match o with Some l => [[1%Z]; zs_of_bools l] | None => [[0%Z]; []] end.
+(* union: [pa][a][ao][pb][b][bo][len] *)
+Definition s_union (a : args) : list (list Z) :=
+  let len := argn 6 a in
+  out_optbits (union_spec (optbits (argb 0 a) (bytes_of (arg 1 a)) (argn 2 a) len)
+                          (optbits (argb 3 a) (bytes_of (arg 4 a)) (argn 5 a) len)).
+(* union_many: [len] then triples [p][bytes][off] *)
+Fixpoint many_args (fuel : nat) (len : nat) (l : args) : list (option (list bool)) :=
+  match fuel with O => [] | S f =>
+    match l with
+    | p :: b :: o :: r => optbits (negb (Z.eqb (hd 0%Z p) 0)) (bytes_of b) (Z.to_nat (hd 0%Z o)) len :: many_args f len r
+    | _ => []
+    end end.
+Definition s_union_many (a : args) : list (list Z) :=
+  out_optbits (union_many_spec (many_args (List.length a) (argn 0 a) (tl a))).
+(* contains: [a][ao][b][bo][len] *)
+Definition s_contains (a : args) : list (list Z) :=
+  let len := argn 4 a in
+  [ [zb (contains_spec (bits_range (bytes_of (arg 0 a)) (argn 1 a) len) (bits_range (bytes_of (arg 2 a)) (argn 3 a) len))] ].
+(* expand: [a][ao][len][count] *)
+Definition s_expand (a : args) : list (list Z) :=
+  [ zs_of_bools (expand_spec (bits_range (bytes_of (arg 0 a)) (argn 1 a) (argn 2 a)) (argn 3 a)) ].
+
+(* builder: each group one op: [code; params...] ; bits inline as 0/1 *)
+Definition bop_of (g : list Z) : option bop :=
+  match g with
+  | 0%Z :: b :: _ => Some (BAppend (negb (Z.eqb b 0)))
+  | 1%Z :: n :: b :: _ => Some (BAppendN (Z.to_nat n) (negb (Z.eqb b 0)))
+  | 2%Z :: l => Some (BAppendSlice (bools_of l))
+  | 3%Z :: l => Some (BAppendPacked (bools_of l))
+  | 4%Z :: i :: b :: _ => Some (BSetBit (Z.to_nat i) (negb (Z.eqb b 0)))
+  | 5%Z :: n :: _ => Some (BTruncate (Z.to_nat n))
+  | 6%Z :: n :: _ => Some (BResize (Z.to_nat n))
+  | 7%Z :: n :: _ => Some (BAdvance (Z.to_nat n))
+  | 8%Z :: l => Some (BAppendWord (bools_of l))
+  | _ => None
+  end.
+Definition s_builder (a : args) : list (list Z) :=
+  [ zs_of_bools (builder_spec (flat_map (fun g => match bop_of g with Some o => [o] | None => [] end) a)) ].
+
+Definition ops_C19b : list (string * opfun) :=
+  [ ("c19.unop.spec", s_unop); ("c19.binop.spec", s_binop); ("c19.quat.spec", s_quat);
+    ("c19.unop_inplace.spec", s_unop_inplace); ("c19.binop_inplace.spec", s_binop_inplace);
+    ("c19.has.spec", s_has); ("c19.find_nth.spec", s_find_nth); ("c19.iter.spec", s_iter);
+    ("c19.eq.spec", s_eq); ("c19.union.spec", s_union); ("c19.union_many.spec", s_union_many);
+    ("c19.contains.spec", s_contains); ("c19.expand.spec", s_expand); ("c19.builder.spec", s_builder) ].
+
+
+
+(* iter_script: [bytes][off][len][codes][ks] *)
+Definition s_iter_script (a : args) : list (list Z) :=
+  [ iter_script (bits_range (bytes_of (arg 0 a)) (argn 1 a) (argn 2 a))
+      (List.combine (arg 3 a) (map Z.to_nat (arg 4 a))) ].
+Definition ops_C19c : list (string * opfun) := [ ("c19.iter_script.spec", s_iter_script) ].
+Definition ops_C19 : list (string * opfun) := ops_C19a ++ ops_C19b ++ ops_C19c.
